@@ -4,6 +4,12 @@ E1: all assignments of a dyadic value alphabet to small (species x cells) states
 modes x engines x {grid, graph}; only set-up + the t=0 record are executed (supervised: a set-up that does
 not return is a violation).  Poisson mode: the probe build logs every (mean, result) of
 std::poisson_distribution, so "entry e was drawn with mean amount(e)" is checked per entry.
+
+E2 (units): the same oracles with script / system units systems whose quantity unit is molecule, mol or nmol: the
+state is handed over in the system's units such that the amounts in molecules are the dyadic alphabet; the t = 0
+record (expressed in the script's units) is converted back to molecules with the exact scales of mc/ref/si.py.
+E3 (script-object history): the mode is set through the public setter in sequences of valid and rejected
+assignments, then the SAME script object is set up: it must behave as with the last accepted mode.
 """
 import itertools
 from collections import Counter
@@ -12,6 +18,7 @@ import math
 
 from mc import core, pool, models, eng
 from mc import lifecycle as lc
+from mc.ref import si
 
 core.setup_paths()
 
@@ -41,21 +48,62 @@ def space_for(gtype, nc):
             "edges": [[i, i + 1, 1.0, 1.0] for i in range(nc - 1)]}
 
 
+VALID_MODES = ["auto", "none", "Poisson", "redist"]          # the four modes of the statement
+INVALID = ["floor", "poisson", "Redist", "", None]              # strings/values that are not one of the four modes
+TOL = 1e-9                                                       # relative tolerance after an inexact units conversion
+
+
+def inexact(case):
+    """True when the state crosses a quantity-unit conversion that is not the identity (mol/nmol <-> molecule)."""
+    u = case.get("units")
+    return bool(u) and (u["script"][2] != "molecule" or u["system"][2] != "molecule")
+
+
+def handed_state(case):
+    """The values handed to RDSystem: case['state'] is in MOLECULES; the system takes them in its own quantity unit."""
+    u = case.get("units")
+    if not u:
+        return case["state"]
+    return [si.to_float(F(v) / si.QUANTITY[u["system"][2]]) for v in case["state"]]
+
+
 def mk_script(case):
     ns, nc = case["shape"]
     spec = {"species": [{"label": "ABC"[s], "D": 0.0} for s in range(ns)], "reactions": [], "envs": [""],
-            "space": space_for(case["gtype"], nc), "state": case["state"]}
-    return models.build_script({"system": spec, "t_sample": [0], "time_step": 0.25, "t_max": 0.0,
-                                "policy": "on_t_sample", "seed": case["seed"], "isp": case["isp"]})
+            "space": space_for(case["gtype"], nc), "state": handed_state(case)}
+    sc = {"system": spec, "t_sample": [0], "time_step": 0.25, "t_max": 0.0,
+          "policy": "on_t_sample", "seed": case["seed"], "isp": case["isp"]}
+    u = case.get("units")
+    if u:
+        spec["units"] = list(u["system"])
+        sc["units"] = list(u["script"])
+    return models.build_script(sc)
 
 
-def t0_record(case, use_probe):
-    script = mk_script(case)
+def apply_history(script, history):
+    """Assign every value of the history through the public setter.  Returns (last accepted value or None,
+    [values of INVALID that were accepted without an exception])."""
+    last, accepted_invalid = None, []
+    for v in history:
+        try:
+            script.init_state_processing = v
+        except Exception:
+            continue                 # rejected: the script must be unchanged
+        last = v
+        if v not in VALID_MODES:
+            accepted_invalid.append(v)
+    return last, accepted_invalid
+
+
+def t0_record(case, use_probe, script=None):
+    extra = (" units=%r" % (case["units"],) if case.get("units") else "") + (" setter history=%r" % (case["history"],) if script is not None else "")
+    if script is None:
+        script = mk_script(case)
     if case.get("route") == "cgmap":
         # the documented coarse-graining route with the identity index map: same system, same processing modes
         from strengths import simulate_script
         ns, nc = case["shape"]
-        lc.announce("simulate_script cgmap=identity %s isp=%s seed=%d state=%r" % (case["engine"], case["isp"], case["seed"], case["state"]))
+        lc.announce("simulate_script cgmap=identity %s isp=%s seed=%d state=%r%s" % (case["engine"], case["isp"], case["seed"], case["state"], extra))
         out = simulate_script(script, eng.make_engine(case["engine"]), cgmap=list(range(nc)))
         t, d = models.traj_arrays(out)
         return t, d, None, None, False
@@ -65,7 +113,7 @@ def t0_record(case, use_probe):
         e = pr.engine(case["engine"])
     else:
         e = eng.make_engine(case["engine"])
-    lc.announce("setup %s %s isp=%s seed=%d state=%r" % (case["engine"], case["gtype"], case["isp"], case["seed"], case["state"]))
+    lc.announce("setup %s %s isp=%s seed=%d state=%r%s" % (case["engine"], case["gtype"], case["isp"], case["seed"], case["state"], extra))
     e.setup(script)
     plog = pr.plog() if pr else None
     nlog = pr.nlog() if pr else None
@@ -75,75 +123,159 @@ def t0_record(case, use_probe):
     return t, d, plog, nlog, bool(pr)
 
 
+def resolve(isp, engine):
+    if isp == "auto":
+        return "redist" if engine != "euler" else "none"
+    return isp
+
+
+def to_molecules(case, y):
+    """Recorded values (in the script's quantity unit) -> molecules, with the exact scale of the reference table."""
+    u = case.get("units")
+    if not u:
+        return list(y)
+    q = si.QUANTITY[u["script"][2]]
+    return [si.to_float(F(v) * q) for v in y]
+
+
+def near_integer_totals(case):
+    """Species whose real-valued total (in molecules) is less than 0.2 away from an integer: after an inexact units
+    conversion floor(total) is not determined by the statement for them."""
+    ns, nc = case["shape"]
+    x = case["state"]
+    out = []
+    for s in range(ns):
+        tot = sum(F(v) for v in x[s * nc:(s + 1) * nc])
+        fr = tot - (tot.numerator // tot.denominator)
+        if fr < F(1, 5) or fr > F(4, 5):
+            out.append(s)
+    return out
+
+
 def check_case(case):
+    return _check(case)[0]
+
+
+def _check(case):
+    """(violations, info).  info['skip']: the case carries no oracle on this tree; info['rejected']: number of rejected
+    setter assignments; info['totals_skipped']: species totals left out of the redistribution-total oracle."""
+    info = {}
     out = []
     ns, nc = case["shape"]
     x = case["state"]
     isp, engine = case["isp"], case["engine"]
-    stochastic = engine != "euler"
-    mode = isp
-    if isp == "auto":
-        mode = "redist" if stochastic else "none"
+    hist = case.get("history")
+    units = case.get("units")
+    sfx = (":units" if units else "") + (":history" if hist is not None else "")
+    note = ""
+    if units:
+        note += " [amounts in molecules; script units %s, system units %s, state handed over as %r]" % (
+            "/".join(units["script"]), "/".join(units["system"]), handed_state(case))
+    script = None
+    if hist is not None:
+        note += " [script built with mode %r, then assigned %r through the setter]" % (case["isp"], hist)
+        try:
+            script = mk_script(case)
+            last, accepted_invalid = apply_history(script, hist)
+            reported = script.init_state_processing
+        except Exception as e:
+            return [("C14:history:unexpected-exception", "%s: %s%s" % (type(e).__name__, e, note))], info
+        if accepted_invalid:
+            info["skip"] = "invalid-string-accepted"      # a valid mode of this tree: no oracle in the statement
+            return [], info
+        if last is not None:
+            isp = last
+        info["rejected"] = sum(1 for v in hist if v not in VALID_MODES)
+        if reported != isp:
+            out.append(("C14:history:getter-does-not-report-the-last-accepted-mode",
+                        "init_state_processing reports %r, last accepted mode is %r%s" % (reported, isp, note)))
+    mode = resolve(isp, engine)
     try:
         if case.get("window"):
-            return check_window(case, mode)
-        t, d, plog, nlog, probed = t0_record(case, use_probe=(mode == "Poisson"))
+            return check_window(case, mode), info
+        t, d, plog, nlog, probed = t0_record(case, use_probe=(mode == "Poisson"), script=script)
     except Exception as e:
-        return [("C14:%s:unexpected-exception" % mode, "%s: %s" % (type(e).__name__, e))]
+        return out + [("C14:%s%s:unexpected-exception" % (mode, sfx), "%s: %s%s" % (type(e).__name__, e, note))], info
     if len(d) < 1 or t[0] != 0.0:
-        return [("C14:%s:no-t0-record" % mode, "times %r" % (t,))]
+        return out + [("C14:%s%s:no-t0-record" % (mode, sfx), "times %r%s" % (t, note))], info
     y = d[0]
+    ym = to_molecules(case, y)
+    tol = TOL if inexact(case) else 0.0
     tag = "%s:%s" % (mode, engine)
     if case.get("route") == "cgmap":
         tag += ":cgmap"
+    tag += sfx
+    if hist is not None:
+        # behaves exactly as a fresh script built with the last accepted mode (same seed: reproducible)
+        try:
+            t2, d2, _, _, _ = t0_record(dict(case, isp=isp), use_probe=False)
+            if len(d2) < 1 or d2[0] != y:
+                out.append(("C14:%s:differs-from-a-fresh-script-with-that-mode" % tag,
+                            "seed %d: state %r -> %r, a new script with mode %r gives %r%s" % (case["seed"], x, y, isp, d2[:1], note)))
+        except Exception as e:
+            out.append(("C14:%s%s:unexpected-exception" % (mode, sfx), "fresh script: %s: %s%s" % (type(e).__name__, e, note)))
     if mode == "none":
-        if y != x:
-            out.append(("C14:none:%s:not-passed-through" % tag.split(":", 1)[1], "state %r recorded as %r" % (x, y)))
-        return out
+        if len(ym) != len(x) or any(not (abs(ym[q] - x[q]) <= tol * (abs(x[q]) if x[q] else 1.0)) for q in range(len(x))):
+            out.append(("C14:none:%s:not-passed-through" % tag.split(":", 1)[1], "state %r recorded as %r%s" % (x, ym, note)))
+        return out, info
     # stochastic modes: non-negative integers, zero stays zero
-    if any(v < 0 or v != math.floor(v) for v in y):
-        out.append(("C14:%s:not-nonnegative-integers" % tag, "state %r -> %r" % (x, y)))
-        return out
+    yi = []
+    for v in ym:
+        r = round(v) if math.isfinite(v) else None
+        if r is None or r < 0 or not (abs(v - r) <= tol * max(1.0, abs(r))):
+            out.append(("C14:%s:not-nonnegative-integers" % tag, "state %r -> %r%s" % (x, ym, note)))
+            return out, info
+        yi.append(float(r))
+    if len(yi) != len(x):
+        out.append(("C14:%s:not-nonnegative-integers" % tag, "state %r -> %r (wrong length)%s" % (x, ym, note)))
+        return out, info
     for q in range(len(x)):
-        if x[q] == 0 and y[q] != 0:
+        if x[q] == 0 and yi[q] != 0:
             s, c = divmod(q, nc)
-            out.append(("C14:%s:molecule-in-empty-cell" % tag, "state %r -> %r: species %d cell %d had amount 0" % (x, y, s, c)))
-            return out
+            out.append(("C14:%s:molecule-in-empty-cell" % tag, "state %r -> %r: species %d cell %d had amount 0%s" % (x, ym, s, c, note)))
+            return out, info
     if mode == "redist":
+        skip = near_integer_totals(case) if tol else []
+        info["totals_skipped"] = len(skip)
         for s in range(ns):
+            if s in skip:
+                continue         # inexact conversion: floor(total) of a total this close to an integer is not pinned
             tot = sum(F(v) for v in x[s * nc:(s + 1) * nc])
             exp = tot.numerator // tot.denominator
-            got = sum(y[s * nc:(s + 1) * nc])
+            got = sum(yi[s * nc:(s + 1) * nc])
             if got != exp:
-                out.append(("C14:%s:total" % tag, "state %r -> %r: species %d total %s, floor %d, got %d" % (x, y, s, float(tot), exp, got)))
-                return out
+                out.append(("C14:%s:total" % tag, "state %r -> %r: species %d total %s, floor %d, got %d%s" % (x, ym, s, float(tot), exp, got, note)))
+                return out, info
     if mode == "Poisson" and probed:
-        have = Counter((m, r) for m, r in plog)
+        xs = sorted(set(v for v in x if v > 0))
+
+        def canon(m):
+            for v in xs:
+                if abs(m - v) <= tol * v:
+                    return v
+            return m
+        have = Counter((canon(m), r) for m, r in plog)
         if nlog:
             for m, sd, r in nlog:
-                have[(m, max(0.0, math.floor(r)))] += 1
-        need = Counter((x[q], y[q]) for q in range(len(x)) if x[q] > 0)
+                have[(canon(m), max(0.0, math.floor(r)))] += 1
+        need = Counter((x[q], yi[q]) for q in range(len(x)) if x[q] > 0)
         missing = need - have
         if missing:
             (m, r), _ = sorted(missing.items())[0]
-            out.append(("C14:Poisson:%s:entry-not-drawn-with-its-own-mean" % engine,
+            out.append(("C14:Poisson:%s%s:entry-not-drawn-with-its-own-mean" % (engine, sfx),
                         "state %r -> %r: an entry with amount %g holds %g molecules but no Poisson draw with mean %g gave %g; "
-                        "draws (mean, result): %r" % (x, y, m, r, m, r, sorted(have)[:12])))
-            return out
+                        "draws (mean, result): %r%s" % (x, ym, m, r, m, r, sorted(have)[:12], note)))
+            return out, info
     # reproducible for a given seed
     if case.get("repeat"):
         try:
             t2, d2, _, _, _ = t0_record(case, use_probe=False)
-            if mode != "Poisson" or not probed:
-                if d2[0] != y:
-                    out.append(("C14:%s:not-reproducible" % tag, "seed %d: %r then %r" % (case["seed"], y, d2[0])))
-            else:
-                # the probe build delegates to the same generator: plain build must give the same draw
-                if d2[0] != y:
-                    out.append(("C14:%s:not-reproducible" % tag, "seed %d: probe build %r, plain build %r" % (case["seed"], y, d2[0])))
+            # (Poisson: the probe build delegates to the same generator, the plain build must give the same draw)
+            if d2[0] != y:
+                out.append(("C14:%s:not-reproducible" % tag, "seed %d: %r then %r%s" % (case["seed"], y, d2[0], note)))
         except Exception as e:
-            out.append(("C14:%s:unexpected-exception" % mode, "%s: %s" % (type(e).__name__, e)))
-    return out
+            out.append(("C14:%s%s:unexpected-exception" % (mode, sfx), "%s: %s%s" % (type(e).__name__, e, note)))
+    return out, info
 
 
 def check_window(case, mode):
@@ -234,6 +366,115 @@ def gen_cases(tier, seed0):
                        "window": window, "repeat": False}
 
 
+UNITS = [{"script": ["nm", "ms", "molecule"], "system": ["nm", "ms", "molecule"]},
+         {"script": ["nm", "ms", "molecule"], "system": ["mm", "min", "mol"]},
+         {"script": ["nm", "ms", "mol"], "system": ["nm", "ms", "mol"]},
+         {"script": ["nm", "ms", "mol"], "system": ["µm", "s", "molecule"]},
+         {"script": ["nm", "ms", "nmol"], "system": ["nm", "ms", "nmol"]},
+         {"script": ["nm", "ms", "nmol"], "system": ["mm", "min", "mol"]}]
+COMBOS = [("tauleap", "auto"), ("gillespie", "redist"), ("gillespie", "Poisson"), ("tauleap", "Poisson"),
+          ("euler", "auto"), ("euler", "none"), ("gillespie", "none"), ("euler", "redist"), ("euler", "Poisson"),
+          ("tauleap", "none"), ("tauleap", "redist")]
+_GEN = {}
+
+
+def excluded_units_combo(engine, isp, units):
+    """Deterministic engine with an explicit stochastic mode and a script quantity unit other than 'molecule': the mode
+    then acts on the real-valued amounts in that unit (the statement speaks of molecules for the stochastic engines only)."""
+    return engine == "euler" and isp in ("redist", "Poisson") and units["script"][2] != "molecule"
+
+
+def units_states(tier):
+    thorough = tier == "thorough"
+    out = [((1, 2), [list(c) for c in itertools.product(ALPHA, repeat=2)])]
+    if thorough:
+        out.append(((1, 3), [list(c) for c in itertools.product([0.0, 0.25, 1.0, 1.75, 100.0], repeat=3)]))
+    al = [0.0, 0.5, 1.0, 1.75] if thorough else [0.0, 0.5, 1.75]
+    out.append(((2, 2), [list(c) for c in itertools.product(al, repeat=4)]))
+    out.append(((2, 3), [[0.25, 0.0, 0.5, 1.75, 0.0, 1.0], [150.25, 0.0, 1.0, 0.0, 99.5, 2.0],
+                         [1.0, 0.0, 2.0, 0.0, 3.0, 100.0], [0.5, 0.75, 0.0, 1000.0, 0.75, 0.5]]))
+    return out
+
+
+def gen_units_cases(tier, seed0):
+    """E2: (state in molecules) x units systems x space type x (engine, mode) x seeds, direct set-up; + the cgmap route."""
+    seeds = [1000 * seed0] if tier == "quick" else [1000 * seed0, 1000 * seed0 + 1]
+    excluded = 0
+    for (ns, nc), sts in units_states(tier):
+        for sti, st in enumerate(sts):
+            for ui, units in enumerate(UNITS):
+                for gtype in (("grid", "graph") if tier == "thorough" else (("grid", "graph")[(sti + ui) % 2],)):
+                    for ci, (engine, isp) in enumerate(COMBOS):
+                        if tier == "quick" and ns * nc >= 4 and (sti // 2 + ui + ci) % 2:
+                            continue
+                        if isp == "none" and engine != "euler" and any(v != math.floor(v) for v in st):
+                            continue
+                        if excluded_units_combo(engine, isp, units):
+                            excluded += 1
+                            continue
+                        for sd in seeds:
+                            yield {"shape": [ns, nc], "state": st, "gtype": gtype, "engine": engine, "isp": isp, "seed": sd,
+                                   "units": units, "repeat": (sti + ui + ci) % 4 == 0}
+    cg_states = {(1, 3): [[0.5, 0.0, 1.75], [2.0, 99.5, 0.25], [3.0, 0.0, 4.0]],
+                 (2, 2): [[0.5, 1.75, 0.0, 100.0], [1.0, 2.0, 3.0, 0.0], [0.25, 0.25, 0.25, 0.25]]}
+    for (ns, nc), sts in cg_states.items():
+        for st in sts:
+            for units in UNITS:
+                for engine, isp in COMBOS:
+                    if isp == "none" and engine != "euler" and any(v != math.floor(v) for v in st):
+                        continue
+                    if excluded_units_combo(engine, isp, units):
+                        excluded += 1
+                        continue
+                    for sd in seeds:
+                        yield {"shape": [ns, nc], "state": st, "gtype": "grid", "engine": engine, "isp": isp, "seed": sd,
+                               "units": units, "route": "cgmap", "repeat": False}
+    _GEN["units_excluded"] = excluded
+
+
+def histories(tier):
+    """(start mode, [assigned values]): every sequence over the 4 valid modes + INVALID that holds at least one invalid value."""
+    al = VALID_MODES + INVALID
+    out = []
+    for L in ((1, 2, 3) if tier == "thorough" else (1, 2)):
+        if L == 1 or (L == 2 and tier == "thorough"):
+            starts = VALID_MODES
+        elif L == 2:
+            starts = ["auto"]
+        else:
+            starts = ["auto", "Poisson"]
+        for h in itertools.product(al, repeat=L):
+            if all(v in VALID_MODES for v in h):
+                continue
+            for st in starts:
+                out.append((st, list(h)))
+    return out
+
+
+HIST_STATES = [[0.5, 0.75, 0.0, 1.75, 0.75, 0.5], [1.0, 0.0, 2.0, 0.0, 3.0, 100.0]]      # 2 species x 3 cells
+
+
+def gen_history_cases(tier, seed0):
+    """E3: a script whose mode went through accepted and rejected setter assignments, then set up (same object)."""
+    seeds = [1000 * seed0] if tier == "quick" else [1000 * seed0, 1000 * seed0 + 1]
+    for start, h in histories(tier):
+        final = start
+        for v in h:
+            if v in VALID_MODES:
+                final = v
+        for st in HIST_STATES:
+            for engine in ("gillespie", "tauleap", "euler"):
+                if final == "none" and engine != "euler" and any(v != math.floor(v) for v in st):
+                    continue
+                for gtype, route, sds in (("grid", None, seeds), ("graph", None, seeds), ("grid", "cgmap", seeds[:1])):
+                    for sd in sds:
+                        c = {"shape": [2, 3], "state": st, "gtype": gtype, "engine": engine, "isp": start, "seed": sd,
+                             "history": h, "repeat": False}
+                        if route:
+                            c["route"] = route
+                        yield c
+
+
 _CASES = None
 
 
@@ -241,10 +482,23 @@ def _work(job):
     lo, hi = job
     acc = core.Acc()
     for case in _CASES[lo:hi]:
-        res = check_case(case)
+        res, info = _check(case)
         tot = sum(case["state"])
-        acc.add(states=1, transitions=2 if case.get("repeat") else 1, traces=1, evaluations=1,
-                nontrivial=1 if tot > 0 else 0)
+        hist = case.get("history")
+        if info.get("skip"):
+            acc.add(states=1, transitions=len(hist or []), traces=0, evaluations=0, nontrivial=0)
+            acc.count("history_cases_skipped:invalid_value_accepted_by_the_setter_of_this_tree")
+            continue
+        acc.add(states=1, transitions=(len(hist) + 2) if hist is not None else (2 if case.get("repeat") else 1),
+                traces=1, evaluations=1, nontrivial=1 if tot > 0 else 0)
+        if hist is not None:
+            acc.count("cases:history")
+            acc.count("history_rejected_assignments", info.get("rejected", 0))
+        elif case.get("units"):
+            acc.count("cases:units:script_quantity_%s" % case["units"]["script"][2])
+            if case["gtype"] == "graph" and case["engine"] != "euler" and case["units"]["script"][2] != "molecule":
+                acc.count("units_cases_graph_stochastic_engine_nonmolecule_script_quantity")
+            acc.count("units_redist_species_totals_skipped_within_0.2_of_an_integer", info.get("totals_skipped", 0))
         acc.count("cases:%s" % case["isp"])
         if 0 < tot < 1:
             acc.count("states_with_total_below_one_molecule")
@@ -258,11 +512,19 @@ def _work(job):
 
 def run(ctx):
     global _CASES
-    _CASES = list(gen_cases(ctx.tier, ctx.seed))
+    base = list(gen_cases(ctx.tier, ctx.seed))
+    ucases = list(gen_units_cases(ctx.tier, ctx.seed))
+    hcases = list(gen_history_cases(ctx.tier, ctx.seed))
+    _CASES = base + ucases + hcases
+    bounds = [0, len(base), len(base) + len(ucases), len(_CASES)]
     eng.so_path("plain")
     so, err = __import__("mc.build", fromlist=["x"]).try_build("probe")
     ctx.note("probe", "on" if so else "blind: " + (err or "")[-300:])
-    done = 0
+    done = [0, 0, 0]
+
+    def credit(job):
+        for k in range(3):
+            done[k] += max(0, min(job[1], bounds[k + 1]) - max(job[0], bounds[k]))
     for job, r in pool.pmap_split(_work, len(_CASES), 400, timeout=60, single_timeout=8, max_failures=16):
         if isinstance(r, pool.Crash) and r.kind == "skipped":
             ctx.exhaustive = False
@@ -271,21 +533,42 @@ def run(ctx):
             continue
         if isinstance(r, pool.Crash):
             c = _CASES[job[0]]
-            mode = c["isp"] if c["isp"] != "auto" else ("redist" if c["engine"] != "euler" else "none")
-            ctx.violation("C14:%s:%s:%s" % (mode, c["engine"], "hang-in-setup" if r.kind == "hang" else r.kind), r.detail[-1500:], c)
-            done += 1
+            mode = resolve(c["isp"], c["engine"])
+            sfx = (":units" if c.get("units") else "") + (":history" if c.get("history") is not None else "")
+            ctx.violation("C14:%s:%s%s:%s" % (mode, c["engine"], sfx, "hang-in-setup" if r.kind == "hang" else r.kind), r.detail[-1500:], c)
+            credit(job)
             continue
         core.merge(ctx, r)
-        done += job[1] - job[0]
+        credit(job)
     ctx.subspace("all assignments of the dyadic alphabet {0,1/4,1/2,1,7/4,2,99.5,100,150.25,1000} (<= 3 entries; 8 resp. 6 values for 4 "
                  "entries, 4 resp. 3 values for 6 entries, plus every placement of one large value) to (species,cells) in {(1,1),(1,3),(2,2),(2,3),(3,2)} x "
                  "{grid,graph} x 9 (engine, processing mode) combinations x seed window; + 6 states x 11 combinations through "
-                 "simulate_script(cgmap=identity); + 4 equal-mean states x {grid,graph} x 3 engines x 16-seed window (independence)", len(_CASES), done,
-                 exhaustive=(done == len(_CASES)))
-    ctx.rule("one case per (shape, state, space type, engine, mode, seed); non-trivial = state not identically zero; "
-             "set-up runs in a supervised worker (60 s limit per chunk, single-case re-run on a hang)")
+                 "simulate_script(cgmap=identity); + 4 equal-mean states x {grid,graph} x 3 engines x 16-seed window (independence)", len(base), done[0],
+                 exhaustive=(done[0] == len(base)))
+    ctx.subspace("units: states whose amounts IN MOLECULES are dyadic (all pairs of the 10-value alphabet for 1x2; {0,1/2,[1,]7/4}^4 for 2x2; "
+                 "[{0,1/4,1,7/4,100}^3 for 1x3, thorough;] 4 states 2x3), handed over in the system's units x 6 (script units, system units) "
+                 "pairs (script quantity molecule / mol / nmol, space nm, time ms; system units equal or mm/min/mol resp. um/s/molecule) x "
+                 "{grid,graph} x 11 (engine, mode) combinations x seeds, direct set-up; + 6 states x 6 pairs x 11 combinations through "
+                 "simulate_script(cgmap=identity).  EXCLUDED (declared, %d combinations): euler with an explicit 'redist'/'Poisson' mode and a "
+                 "script quantity unit other than molecule" % _GEN.get("units_excluded", 0), len(ucases), done[1],
+                 exhaustive=(done[1] == len(ucases)))
+    ctx.subspace("script-object history: every sequence of length 1..2 (thorough: ..3) over {auto,none,Poisson,redist} + the invalid values "
+                 "{'floor','poisson','Redist','',None} with at least one invalid value, assigned through the public setter of a script built "
+                 "with each start mode (all 4 for length 1 [and 2, thorough]; auto [and Poisson] otherwise), then set up on the SAME object: "
+                 "x 2 states (2 species x 3 cells) x 3 engines x {grid, graph, grid through simulate_script(cgmap=identity)} x seeds",
+                 len(hcases), done[2], exhaustive=(done[2] == len(hcases)))
+    ctx.count("units_combinations_excluded:euler_explicit_stochastic_mode_nonmolecule_script_quantity", _GEN.get("units_excluded", 0))
+    ctx.rule("one case per (shape, state, space type, engine, mode, seed[, units pair][, setter history]); non-trivial = state not "
+             "identically zero; set-up runs in a supervised worker (60 s limit per chunk, single-case re-run on a hang)")
     ctx.assume("dyadic amounts make floor(total) exact; std::poisson_distribution / normal_distribution themselves are "
                "trusted, the check pins their parameters (probe log); seed window [1000*VERIF_SEED, +2 quick / +4 thorough) plus seed 0")
+    ctx.assume("units: the statement speaks of MOLECULES for the stochastic engines; the recorded state (script's quantity unit) is converted "
+               "to molecules with the exact scale and compared with a 1e-9 relative tolerance when a mol/nmol <-> molecule conversion is "
+               "involved; species totals within 0.2 of an integer are then left out of the floor(total) oracle (counted).  For the "
+               "deterministic engine an explicit 'redist'/'Poisson' mode acts on the amounts in the script's own quantity unit, so "
+               "(euler, explicit redist/Poisson, script quantity other than molecule) is excluded from the units dimension (counted)")
+    ctx.assume("history: a value of the invalid list that the setter of the tree under test accepts without an exception is a valid mode "
+               "of that tree: the case is skipped and counted, not judged")
 
 
 def replay(case):
